@@ -83,3 +83,60 @@ func VerifH_C07_RedisAsyncStoreOwnsKey() {
 		verifrt.Reach("not-queued") // lifetime already (almost) over: nothing to write
 	}
 }
+
+// VerifH_C07_GetVersusRelease: "unchanged … under concurrent stores, lookups and evictions". A lookup of key k races
+// with what the cache library's maintenance does when it evicts / replaces / expires that very entry: the deletion
+// listener releases the entry (its value buffer goes back to the pool, the entry object is recycled) and the next
+// store reuses both for ANOTHER key. A pre-emption is possible before every lock operation and right after every
+// unlock (≤ 2 deviations). The lookup returns nothing, or exactly the value stored under k — it never reads the value
+// buffer after the entry's lock was given up (ownership ghost), and never returns the other key's bytes.
+func VerifH_C07_GetVersusRelease() {
+	verifrt.Unwind(60)
+	verifrt.SchedBound(2)
+	verifrt.PreemptSync()
+	verifrt.NoTimers()
+	c := &MemoryCache{}
+	k, k2 := []byte{1, 'a'}, []byte{1, 'b'}
+	want := verifrt.BytesN("v", 3)
+	now := time.Now()
+	c.Store(k, now, now.Add(time.Minute), want, false)
+	e, ok := c.backend.Get(string(k))
+	verifrt.Assert(ok && e != nil, "stored")
+	type res struct{ v pool.Buffer }
+	got := make(chan res, 1)
+	go func() {
+		v, _, _ := c.Get(k)
+		got <- res{v}
+	}()
+	go func() {
+		releaseEntry(e)                                                   // eviction of k's entry
+		c.Store(k2, now, now.Add(time.Minute), []byte{0xEE, 0xEE, 0xEE}, false) // recycles entry object and buffer
+	}()
+	r := <-got
+	verifrt.Quiesce()
+	verifrt.Reach("looked-up")
+	if r.v != nil {
+		verifrt.Reach("hit")
+		verifrt.Assert(verifrt.EqBytes(r.v, want), "a hit carries exactly the value stored under the requested key")
+	}
+}
+
+// VerifH_C08_MemoryStoreLifetime: the memory backend is also filled with entries that are NOT fresh: an entry found in
+// the shared (Redis) cache is promoted with its ORIGINAL stored and expire instants. Whatever those are (stored at any
+// earlier instant, expire at any instant), the time-to-live handed to the cache library ends at the entry's expire
+// instant — counted from now, not from when it was first stored: expire − t_after <= ttl <= expire − t_before.
+func VerifH_C08_MemoryStoreLifetime() {
+	verifrt.IntegerSolver()
+	verifrt.Unwind(40)
+	c := &MemoryCache{}
+	stored := time.Now() // when the answer was fetched (possibly by another instance, long ago)
+	life := time.Duration(verifrt.U32("life.s")) * time.Second
+	expire := stored.Add(life)
+	tA := time.Now() // the promotion happens at some later instant
+	c.Store([]byte{1, 'a'}, stored, expire, []byte{1, 2, 3}, verifrt.Bool("nx"))
+	tB := time.Now()
+	verifrt.Reach("stored")
+	verifrt.Assert(verifrt.Ghost("otter.sets") == 1, "handed to the backend once")
+	ttl := verifrt.GhostDuration("otter.lastttl")
+	verifrt.Assert(ttl <= expire.Sub(tA) && ttl >= expire.Sub(tB), "the backend keeps the entry until its expire instant, however old the entry already is")
+}
